@@ -18,6 +18,7 @@ from lib.framework import Check, enc, time_limit
 
 from harness import c17_gen as G
 from harness import c17_oracle as O
+from harness import c17_setter as S
 from harness.c17_impl import Impl
 
 KNOWN_IDS = ('C17-missing-handback',)
@@ -84,6 +85,9 @@ class C17(Check):
         if os.environ.get('C17_DEV') != 'oracle-only':     # development switch: implementation-side oracle only
             ctx.phase(self.correspond, ctx, impl, hist)
         ctx.phase(O.run_oracle, ctx, impl, hist, rng)
+        # the mediaType setter of a single query: correspondence with `MQ.setMediaType` + token-level oracle
+        ctx.phase(S.run, ctx, impl, S.gen_cases(ctx.sub_rng('c17-setter'), ctx.n(1500, 30000)),
+                  os.environ.get('C17_DEV') != 'oracle-only')
 
     def book(self, ctx, hist):
         for h in hist:
@@ -118,6 +122,9 @@ class C17(Check):
         self.book(ctx, hist)
         O.check_vocabulary(ctx, impl)
         O.run_oracle(ctx, impl, hist, rng)
+        cases = [(i['text'], i['type'], i.get('raising', False), 'search')
+                 for i in (d.get('input') or {} for d in ctx.disagreements[:50]) if 'text' in i and 'type' in i]
+        S.run(ctx, impl, cases + S.gen_cases(ctx.sub_rng('c17-setter-search'), 5000), correspond=False)
 
     # -- correspondence --------------------------------------------------------------------------
     def correspond(self, ctx, impl, hist):
@@ -178,6 +185,10 @@ class C17(Check):
         impl = Impl()
         w = data.get('witness') or {}
         hs = []
+        cases = [(i['text'], i['type'], i.get('raising', False), 'replay')
+                 for i in [w] + [b.get('input') or {} for b in data.get('broken', [])] if 'text' in i and 'type' in i]
+        if cases:
+            S.run(ctx, impl, cases)
         if 'start' in w:
             hs.append(G.History(w.get('context', 'alone'), w['start'], [tuple(o) for o in w.get('ops', [])],
                                 raising=w.get('raising', False), kind='replay'))
@@ -186,6 +197,8 @@ class C17(Check):
             if 'start' in i:
                 hs.append(G.History(i.get('context', 'alone'), i['start'], [tuple(o) for o in i.get('ops', [])],
                                     raising=i.get('raising', False), kind='replay'))
+        if not hs and cases:
+            return
         if not hs:
             return self.run(ctx)
         self.correspond(ctx, impl, hs)
